@@ -4,7 +4,7 @@
    py_gql/validation over the TypeInfoVisitor context). *)
 From PyGql Require Import Valid.ValidOverlap Spec.ValidSpec
      Proofs.ValidCloseProofs Proofs.ValidMergeProofs Proofs.ValidStaticProofs Proofs.ValidFuelProofs
-     Spec.ValidLocalSpec Spec.ValidRuntimeSpec Proofs.ValidRuntimeProofs Proofs.ValidMemoProofs Proofs.ValidLocsProofs.
+     Spec.ValidLocalSpec Spec.ValidRuntimeSpec Proofs.ValidRuntimeProofs Proofs.ValidMemoProofs Proofs.ValidLocsProofs Proofs.ValidMemoExample.
 
 (* For every schema and every executable document -- valid or not, also with
    cyclic fragment spreads -- the model of validate_ast returns its list of
@@ -115,6 +115,18 @@ Theorem C05_lookups_agree : forall s d,
 Proof. exact lookups_agree_plain. Qed.
 Print Assumptions C05_lookups_agree.
 
+(* ... in terms of rule verdicts: ScalarLeafs silent, field types that are leaf or
+   composite types (schema validity), no sub-selected introspection meta field. *)
+Theorem C05_lookups_agree_rules : forall s d,
+  r08_scalar_leafs s d = [] ->
+  (forall p n f, get_field_def s p n = Some f ->
+     is_leaf s (unwrap (sf_type f)) = true \/ is_composite s (unwrap (sf_type f)) = true) ->
+  (forall q a n args dirs l0 sub l, reaches s d (Some q) (SField a n args dirs (Some l0) sub l) ->
+     meta_name (n_val n) = false) ->
+  lookups_agree s d.
+Proof. exact lookups_agree_rules. Qed.
+Print Assumptions C05_lookups_agree_rules.
+
 (* The two together: the guarantee through named fragments from rule verdicts
    and distinct locations only. *)
 Theorem C05_merge_unambiguous_named_valid : forall fuel s d,
@@ -143,14 +155,61 @@ Print Assumptions C05_merge_unambiguous_named_valid.
    the memo without having been made. *)
 Theorem C05_merge_memo_sound : forall fuel s d M,
   NoDup (selset_locs (doc_events s d)) ->
-  events_ok s M (doc_events s d) ->
-  (forall g fm fns, frag_ff s (frag_table (doc_defs d)) g = Some (fm, fns) -> mok s M fm) ->
+  events_ok s M (selset_locs (doc_events s d)) (doc_events s d) ->
+  (forall g fm fns, frag_ff s (frag_table (doc_defs d)) g = Some (fm, fns) -> mok s M (selset_locs (doc_events s d)) fm) ->
   r25_overlapping_fields fuel s d = Ok [] ->
   exists stf, newcov s (frag_table (doc_defs d)) M (initial_state s d) stf /\
     forall parent l sels, In (ESelSet parent l sels) (doc_events s d) ->
       forall c, In c (selset_calls s parent l sels) -> sat s stf c.
 Proof. exact memo_sound. Qed.
 Print Assumptions C05_merge_memo_sound.
+
+(* Every depth. [conflict_free s frs c]: the memo-FREE search from call c --
+   [step]: a pair of fields satisfies the pairwise conditions under its
+   exclusivity flag and, when both have sub-selections, the two sub-selections
+   are searched against each other; a field map against a fragment = against
+   the fragment's fields and against every fragment it spreads; two fragments =
+   their fields against each other and each against the fragments the other
+   spreads (an identical pair is not unfolded) -- meets no conflict at any
+   depth. It is the greatest fixed point of [step] (the memo-free search tree
+   is infinite on cyclic spreads), given as the union of the sets closed under
+   [step]. Theorem: when the memoised rule is silent, every call it makes for a
+   visited selection set is conflict free: caching never hides a conflict the
+   uncached search would find. *)
+Theorem C05_merge_unambiguous_deep : forall fuel s d,
+  faithful_locations s d ->
+  r25_overlapping_fields fuel s d = Ok [] ->
+  forall parent l sels, In (ESelSet parent l sels) (doc_events s d) ->
+    forall c, In c (selset_calls s parent l sels) -> conflict_free s (frag_table (doc_defs d)) c.
+Proof. exact merge_deep. Qed.
+Print Assumptions C05_merge_unambiguous_deep.
+
+Theorem C05_merge_unambiguous_deep_valid : forall fuel s d,
+  NoDup (selset_locs (doc_events s d)) ->
+  r06_fragments_on_composite s d = [] ->
+  lookups_agree s d ->
+  r25_overlapping_fields fuel s d = Ok [] ->
+  forall parent l sels, In (ESelSet parent l sels) (doc_events s d) ->
+    forall c, In c (selset_calls s parent l sels) -> conflict_free s (frag_table (doc_defs d)) c.
+Proof. exact merge_deep_plain. Qed.
+Print Assumptions C05_merge_unambiguous_deep_valid.
+
+(* [conflict_free] can be unfolded as deep as wanted ... *)
+Theorem C05_conflict_free_unfold : forall s frs c,
+  conflict_free s frs c -> step s frs (conflict_free s frs) c.
+Proof. exact conflict_free_unfold. Qed.
+Print Assumptions C05_conflict_free_unfold.
+
+(* ... e.g. for two fields compared without the exclusivity flag: they are
+   pairwise mergeable and their sub-selections are conflict free against each
+   other (under the flag the parents determine). *)
+Theorem C05_conflict_free_find : forall s frs f1 f2,
+  conflict_free s frs (CFind false f1 f2) ->
+  pair_mergeable s f1 f2 /\
+  forall l1 s1 l2 s2, fi_sub f1 = Some (l1, s1) -> fi_sub f2 = Some (l2, s2) ->
+    conflict_free s frs (CSub (mexf s false f1 f2) (option_map unwrap (ft f1)) l1 s1 (option_map unwrap (ft f2)) l2 s2).
+Proof. exact conflict_free_find. Qed.
+Print Assumptions C05_conflict_free_find.
 
 (* A document on which FieldsOnCorrectType and KnownFragmentNames are silent
    cannot reach, by static descent from any definition, a field that its parent
@@ -274,3 +333,15 @@ Example C05_example_runtime :
                     (Some (S_ "Q")) None None [] in
   implements_okb s = true /\ implements_okb bad = false.
 Proof. vm_compute. split; reflexivity. Qed.
+
+(* the hypotheses of the theorems about named fragments are jointly satisfiable:
+   [ex_doc] (Proofs/ValidMemoExample.v) is
+     { q { x: a ...A } }  fragment A on Q { ...B }  fragment B on Q { x: a }
+   with distinct selection-set locations *)
+Example C05_example_faithful : faithful_locations ex_schema ex_doc.
+Proof. exact ex_faithful. Qed.
+Example C05_example_deep :
+  r25_overlapping_fields (overlap_fuel ex_schema ex_doc) ex_schema ex_doc = Ok [] /\
+  forall parent l sels, In (ESelSet parent l sels) (doc_events ex_schema ex_doc) ->
+    forall c, In c (selset_calls ex_schema parent l sels) -> conflict_free ex_schema (frag_table (doc_defs ex_doc)) c.
+Proof. exact ex_silent_and_conflict_free. Qed.
